@@ -475,16 +475,16 @@ int main(int argc, char **argv)
             e[k] = probe_energy(advance);
           }
           // rounding noise of the energy as a function of this coordinate: displacements too small to change the energy
-          // otherwise than through its slope (taken from the applied force: an error there enters at 1e-3 of its size) resample
+          // otherwise than through its slope resample
           // the rounding errors of the evaluation (e.g. a variable that is a difference of large terms is quantised)
           double nz = 0.0;
           double const ts[4] = {1.0e-7 * h, 1.0e-3 * h, -1.0e-3 * h, 2.5e-3 * h};
-          double fa = 0.0;
-          for (size_t i = 0; i < ids.size(); i++) if (ids[i] == a) fa += F0[i][d];
+          // slope from the differences themselves (never from the applied force, whose error is what is being measured)
+          double const slope = (4.0 * (e[4] - e[5]) / (0.5 * h) - (e[2] - e[3]) / h) / 3.0;
           for (int k = 0; k < 4; k++) {
             px->pos[a] = save;
             px->pos[a][d] += ts[k];
-            nz = std::max(nz, std::fabs(probe_energy(advance) - E0 + fa * ts[k]));
+            nz = std::max(nz, std::fabs(probe_energy(advance) - E0 - slope * ts[k]));
           }
           if (a || d) noise += ",";
           noise += jnum(nz);
